@@ -74,8 +74,8 @@ theorem no_location_never_in_window (q : Query) (oa : Option Bool) (r : XRec) (h
 of the linear scan: tables in `table_names` order, each with its own copy of the arguments -/
 theorem features_selection_is_scan (db : XDb) (q : Query) (oa : Option Bool) (hdb : db.WF)
     (hw : ∀ r ∈ db.records, XWinHyp q r) :
-    ((featuresTables oa (tableNames db.kind)).flatMap fun n =>
-      (db.table n).filter (xRowMatches q (if n = "user" then oa else none))) = xLinearScan db.records q oa := by
+    selectFeaturesX db q oa = xLinearScan db.records q oa := by
+  unfold selectFeaturesX
   rw [(tables_choice oa _).1]
   unfold xLinearScan XDb.records
   have hu : ∀ r ∈ db.user, xRowMatches q oa r = xSpecMatch q oa r := fun r hr =>
@@ -137,6 +137,7 @@ theorem records_matching_is_scan_partial (db : XDb) (q : Query) (oa : Option Boo
     (hw : ∀ r ∈ db.records, XWinHyp q r) (hoa : oa ≠ some false ∨ db.kind = .basic) :
     ∃ l, getRecordsMatchingX db q oa = .ok l ∧ l.Perm (xLinearScan db.records q oa) := by
   have key := features_selection_is_scan db q oa hdb hw
+  unfold selectFeaturesX at key
   rw [(tables_choice oa _).1] at key
   unfold getRecordsMatchingX
   rw [(tables_choice oa _).2]
@@ -206,6 +207,7 @@ theorem subset_x_is_scan (db : XDb) (q : Query) (hdb : db.WF) (hw : ∀ r ∈ db
   have hq : ({ q with start := subsetStart q.start, stop := subsetStop q.stop } : Query) = q := by
     rw [(subset_bounds_identity _).1, (subset_bounds_identity _).2]
   have key := features_selection_is_scan db q none hdb hw
+  unfold selectFeaturesX at key
   rw [(tables_choice none _).1] at key
   unfold subsetX
   rw [hq]
